@@ -370,6 +370,8 @@ def gen_contest(rng, tier, like=None):
         out["votes_type"] = rng.choice(["defaultdict", "defaultdict", "ordered"])
     if rng.chance(0.12):
         out["np_marks"] = True      # marks held as numpy scalars (np.int64(5), np.bool_(True))
+    from ..core import CONTAINER_KINDS
+    out["container"] = rng.choice(CONTAINER_KINDS)
     return out
 
 
@@ -602,6 +604,7 @@ def _cvrs(case):
 
 _VOTES_TYPE = [None]
 _NP_MARKS = [False]
+_CONTAINER = [None]
 
 
 def _try(f):
@@ -614,12 +617,14 @@ def _try(f):
 def _field(a, f, cvrs):
     from shangrla.core.Audit import Assertion
     style = f.endswith("_style")
+    from ..core import container
+    cv = container(_CONTAINER[0], cvrs)     # a fresh container per call: the functions make one pass over the records
     if f.startswith("mean"):
-        return _num(a.assorter.mean(cvrs, use_style=style))
+        return _num(a.assorter.mean(cv, use_style=style))
     if f.startswith("sum"):
-        return _num(a.assorter.sum(cvrs, use_style=style))
+        return _num(a.assorter.sum(cv, use_style=style))
     # the method Assertion.margin is shadowed by the instance attribute `margin`; call it through the class
-    return _num(Assertion.margin(a, cvrs, use_style=style))
+    return _num(Assertion.margin(a, cv, use_style=style))
 
 
 def _evaluate(cons, con, cid, cvrs, order):
@@ -634,7 +639,8 @@ def _evaluate(cons, con, cid, cvrs, order):
         out[key] = o
     tallies = {}
     for enforce, tag in ((True, "enforce"), (False, "noenforce")):
-        Contest.tally(cons, cvrs, enforce_rules=enforce)
+        from ..core import container
+        Contest.tally(cons, container(_CONTAINER[0], cvrs), enforce_rules=enforce)
         tallies[tag] = {k: int(v) for k, v in con.tally.items()}
         for key, a in con.assertions.items():
             def f(a=a):
@@ -663,11 +669,13 @@ def _amend(cvrs, ops):
 def impl_contest(case):
     _VOTES_TYPE[0] = case.get("votes_type")
     _NP_MARKS[0] = bool(case.get("np_marks"))
+    _CONTAINER[0] = case.get("container")
     try:
         return _impl_contest(case)
     finally:
         _VOTES_TYPE[0] = None
         _NP_MARKS[0] = False
+        _CONTAINER[0] = None
 
 
 def _impl_contest(case):
